@@ -23,6 +23,7 @@ RAW = z3.ArraySort(B64, B8)
 CT_WITH_VAR_ARRAY = 2                  # in ct_flags_mut
 BF_IGNORE_IN_CTOR = 1
 BOUND = 1 << 55
+ALLOC_MAX = 1 << 46            # A-ALLOC is consistent with the address-space model only below this size
 OWN_NOLEN, OWN_LEN, OWN_STRUCTPTR = 48, 64, 48     # offsetof(.., alignment) / sizeof: checked by obligations below
 for _k, _s in (('cfo_count', B64), ('cfo_data', B64), ('cfo_ct', B64), ('cfo_init', B64), ('cfo_raw_before', RAW)):
     Exec.GHOST_SORTS[_k] = _s
@@ -66,8 +67,9 @@ class convert_from_object_rec(Contract):
         return [('recorded', z3.And(g(c.new, 'cfo_count') == g(c.old, 'cfo_count') + 1,
                                     g(c.new, 'cfo_data') == c['data'], g(c.new, 'cfo_ct') == c['ct'],
                                     g(c.new, 'cfo_init') == c['init'], g(c.new, 'cfo_raw_before') == c.old.raw)),
-                ('failure is -1 with an exception', z3.And(z3.Or(c.result == 0, c.result == BV(-1, 32)),
-                                                           z3.Implies(c.result != 0, c.new.err != 0)))]
+                ('failure is -1 with an exception, success leaves the error indicator alone',
+                 z3.And(z3.Or(c.result == 0, c.result == BV(-1, 32)), z3.Implies(c.result != 0, c.new.err != 0),
+                        z3.Implies(c.result == 0, c.new.err == c.old.err)))]
 
 
 R.add(convert_from_object_rec)
@@ -106,21 +108,25 @@ class allocate_with_allocator(Contract):
         return F(c, c.old, c['allocator'], 'ca_alloc', 'cffi_allocator_t') == 0
 
     def pre(self, c):
-        return [('sizes', z3.And(c['basesize'] >= 40, c['basesize'] <= 64, c['datasize'] >= 0, c['datasize'] < BOUND)),
+        return [('sizes', z3.And(c['basesize'] >= 40, c['basesize'] <= 64, c['datasize'] >= 0)),
                 ('ct-valid', c.valid(c['ct'], 104)), ('allocator-valid', c.valid(c['allocator'], 24))]
 
+    def in_scope(self, c):
+        return z3.And(self.default(c), c['datasize'] < ALLOC_MAX)
+
     def scope(self, c):
-        return [('the default allocator (ffi.new; ffi.new_allocator() objects call user code)', self.default(c))]
+        return [('the default allocator (ffi.new_allocator() objects call user code); a request below 2^46 bytes '
+                 '(A-ALLOC: such an allocation succeeds)', self.in_scope(c))]
 
     def frame(self, c):
-        return Frame(err=True, havoc_if=z3.Not(self.default(c)))
+        return Frame(err=True, havoc_if=z3.Not(self.in_scope(c)))
 
     def allocates(self, c):
         return [(c.result, c['basesize'] + c['datasize'])]
 
     def post(self, c):
         r = c.result
-        d = self.default(c)
+        d = self.in_scope(c)
         clear = F(c, c.old, c['allocator'], 'ca_dont_clear', 'cffi_allocator_t') == 0
         return [('a new owning cdata whose data area of datasize bytes follows the header',
                  z3.Implies(d, z3.And(r != 0, F(c, c.new, r, 'c_type', 'CDataObject') == c['ct'],
@@ -238,8 +244,9 @@ class convert_from_object_bitfield_any(Contract):
         return Frame(all_raw=True, err=True)
 
     def post(self, c):
-        return [('0 or -1 with an exception', z3.And(z3.Or(c.result == 0, c.result == BV(-1, 32)),
-                                                      z3.Implies(c.result != 0, c.new.err != 0)))]
+        return [('0 (error indicator untouched) or -1 with an exception',
+                 z3.And(z3.Or(c.result == 0, c.result == BV(-1, 32)), z3.Implies(c.result != 0, c.new.err != 0),
+                        z3.Implies(c.result == 0, c.new.err == c.old.err)))]
 
 
 R.add(convert_from_object_bitfield_any)
@@ -264,6 +271,53 @@ def field_parts(c, st, cf):
 
 
 @R.add
+class _convert_error(Contract):
+    """formats a TypeError 'initializer for ctype ... must be a ..., not ...' -- assumed"""
+    name = '_convert_error'
+    trusted = True
+
+    def frame(self, c):
+        return Frame(err=True)
+
+    def post(self, c):
+        return [('-1 with TypeError', z3.And(c.result == BV(-1, 32), c.new.err == exc(c.ex, 'TypeError')))]
+
+
+dict_entry = R.ghost('dict_entry', B64, B64, B64, z3.BoolSort())     # (dict, key, value) is an item of the dict
+
+
+@R.model('PyDict_Next', "iteration over a dict: 0 at the end, else 1 with *pkey / *pvalue set to some entry (borrowed)")
+def _dictnext(ex, st, args, n):
+    r = ex.fresh('dict_next', z3.BitVecSort(32))
+    st.assume(z3.Or(r == 0, r == 1))
+    c = Ctx(ex, {}, st)
+    vals = {}
+    for dst, nm, size in ((args[1], 'pos', 8), (args[2], 'key', 8), (args[3], 'value', 8)):
+        v = vals[nm] = ex.fresh('dict_' + nm, B64)
+        if nm != 'pos':
+            st.assume(z3.Implies(r == 1, c.valid(v, 24)))
+        old = ex.load_raw(st, dst, size)
+        ex.store_raw(st, dst, z3.If(r == 1, v, old), size)
+    st.assume(z3.Implies(r == 1, dict_entry(args[0], vals['key'], vals['value'])))
+    return r
+
+
+dict_lookup = R.ghost('dict_lookup', B64, B64, B64)
+
+
+@R.model('PyDict_GetItem', "the value stored under the key (ghost dict_lookup(d, key)), or NULL; no exception is raised "
+                           "or kept; hashing a str key runs no user code")
+def _dictget(ex, st, args, n):
+    return dict_lookup(args[0], args[1])
+
+
+@R.model('PyErr_SetObject', "sets the error indicator to the given class")
+def _seto(ex, st, args, n):
+    st.err = args[0]
+    return None
+
+
+@R.add
 class convert_struct_from_object(Contract):
     """function level (its list loop is verified one iteration at a time below; the dict loop is summarised):
     the sizing pass never shrinks the required size"""
@@ -273,25 +327,37 @@ class convert_struct_from_object(Contract):
         ov = c['optvarsize']
         return [('the required size never shrinks',
                  z3.Implies(ov != 0, c.raw(st, ov, 8) >= c.raw(c.old, ov, 8))),
+                ('the sizing pass converts nothing', z3.Implies(ov != 0, z3.And(*[g(st, k) == g(c.old, k) for k in CFO]))),
                 ('optvarsize stays a valid slot', z3.Implies(ov != 0, c.valid(ov, 8)))]
 
-    loops = property(lambda self: {0: LoopSpec(invariant=self._inv, summarise=True, assume_exit=True),
-                                   1: LoopSpec(invariant=lambda c, st: [], summarise=True),     # while (cf ... IGNORE)
-                                   2: LoopSpec(invariant=self._inv, summarise=True, assume_exit=True)})
+    loops = property(lambda self: {0: LoopSpec(invariant=self._inv, summarise=True, assume_exit=True, keep_fields=True),
+                                   2: LoopSpec(invariant=self._inv, summarise=True, assume_exit=True, keep_fields=True)})
 
     def pre(self, c):
         ov = c['optvarsize']
         return [('ct-valid', c.valid(c['ct'], 104)), ('init-valid', c.valid(c['init'], 24)),
                 ('optvarsize NULL or valid', z3.Or(ov == 0, c.valid(ov, 8)))]
 
+    def lazy(self, c):
+        return F(c, c.old, c['ct'], 'ct_lazy_field_list') != 0
+
+    def in_scope(self, c):
+        return z3.And(z3.Not(self.lazy(c)), R.ghost('initializers_in_scope', B64, B64, z3.BoolSort())(c['ct'], c['init']))
+
+    def scope(self, c):
+        return [('not an API-mode struct waiting to be realised; every (field, initializer) pair visited satisfies the '
+                 'preconditions of the loop-body contracts (ghost predicate initializers_in_scope)', self.in_scope(c))]
+
     def frame(self, c):
-        return None
+        return Frame(all_raw=True, err=True, ghost=CFO + [EVENTS], havoc_if=z3.Not(self.in_scope(c)))
 
     def post(self, c):
         ov = c['optvarsize']
+        sc = self.in_scope(c)
         return [('sizing pass: the required size never shrinks',
-                 z3.Implies(z3.And(ov != 0, c.result == 0), c.raw(c.new, ov, 8) >= c.raw(c.old, ov, 8))),
-                ('failure is -1 with an exception', z3.And(z3.Or(c.result == 0, c.result == BV(-1, 32))))]
+                 z3.Implies(z3.And(sc, ov != 0, c.result == 0), c.raw(c.new, ov, 8) >= c.raw(c.old, ov, 8))),
+                ('the sizing pass converts nothing', z3.Implies(z3.And(sc, ov != 0), cfo_unchanged(c))),
+                ('0, or -1 with an exception', z3.Implies(sc, z3.Or(c.result == 0, z3.And(c.result == BV(-1, 32), c.new.err != 0))))]
 
 
 @R.add
@@ -332,12 +398,13 @@ class convert_vfield_from_object(Contract):
 
     def in_scope(self, c):
         p = self.parts(c)
-        return z3.And(p['shift'] < 0,                                          # not a bit-field (C02)
-                      z3.Implies(p['vararr'], z3.And(z3.Or(p['isseq'], p['isbytes'], p['isint']), p['z'] > 0)),
-                      z3.Implies(p['sizing'], (p['mut'] & CT_WITH_VAR_ARRAY) == 0))   # nested var-sized structs: recursion
+        return z3.And(z3.Implies(p['vararr'], z3.And(z3.Or(p['isseq'], p['isbytes'], p['isint']), p['z'] > 0)),
+                      # (a nested struct that itself ends in a flexible array is sized by recursion: not covered)
+                      z3.Implies(p['sizing'], z3.Or(p['vararr'], (p['mut'] & CT_WITH_VAR_ARRAY) == 0)))
 
     def scope(self, c):
-        return [('ordinary field; a flexible array is initialised from a list, tuple, bytes or a length', self.in_scope(c))]
+        return [('a flexible array (of items that are not zero-sized) is initialised from a list, tuple, bytes or a '
+                 'length; no nested struct that itself ends in a flexible array', self.in_scope(c))]
 
     def converts(self, c):
         """the call ends in the conversion that a field assignment performs"""
@@ -375,20 +442,482 @@ class convert_vfield_from_object(Contract):
             ('sizing pass, flexible array member: afterwards the required size covers offset + itemsize*length',
              z3.Implies(z3.And(sc, p['sizing'], p['vararr'], len_ok, c.result == 0),
                         z3.And(o1 == z3.If(need > o0, need, o0), cfo_unchanged(c)))),
-            ('sizing pass, any other member: nothing is converted, the required size stays',
-             z3.Implies(z3.And(sc, p['sizing'], z3.Not(p['vararr'])), z3.And(c.result == 0, cfo_unchanged(c), st1.err == 0))),
+            ('sizing pass, a member without flexible part: nothing is converted, the required size stays',
+             z3.Implies(z3.And(sc, p['sizing'], z3.Not(p['vararr']), (p['mut'] & CT_WITH_VAR_ARRAY) == 0),
+                        z3.And(c.result == 0, cfo_unchanged(c), st1.err == 0, o1 == o0))),
+            ('sizing pass: the required size never shrinks', z3.Implies(z3.And(sc, p['sizing']), o1 >= o0)),
             # real pass
             ('real pass, flexible array given as a length: nothing is converted (the zero-filled memory stays)',
              z3.Implies(z3.And(sc, z3.Not(p['sizing']), p['vararr'], p['isint'], len_ok),
                         z3.And(c.result == 0, cfo_unchanged(c)))),
             ('real pass, otherwise: exactly the conversion that assigning the field performs',
-             z3.Implies(z3.And(sc, self.converts(c), z3.Implies(p['vararr'], len_ok)),
+             z3.Implies(z3.And(sc, self.converts(c), z3.Implies(p['vararr'], len_ok), p['shift'] < 0),
                         z3.And(called, g(st1, 'cfo_data') == c['data'] + p['off'], g(st1, 'cfo_ct') == p['ft'],
                                g(st1, 'cfo_init') == v))),
             ('real pass: the conversion finds the object as it was when the call was made',
-             z3.Implies(z3.And(sc, self.converts(c), z3.Implies(p['vararr'], len_ok)),
+             z3.Implies(z3.And(sc, self.converts(c), z3.Implies(p['vararr'], len_ok), p['shift'] < 0),
                         z3.ForAll([a], z3.Implies(z3.And(z3.ULE(c['data'], a), z3.ULT(a, c['data'] + ext)),
                                                   z3.Select(g(st1, 'cfo_raw_before'), a) == z3.Select(st0.raw, a))))),
             ('a bad length is refused with an exception',
              z3.Implies(z3.And(sc, p['vararr'], z3.Not(len_ok)), z3.And(c.result == BV(-1, 32), st1.err != 0))),
+            ('0 without an exception, or -1 with one',
+             z3.Implies(sc, z3.Or(z3.And(c.result == 0, st1.err == 0), z3.And(c.result == BV(-1, 32), st1.err != 0)))),
         ]
+
+
+is_cfield_obj = R.ghost('is_cfield', B64, z3.BoolSort())
+skipped = R.ghost('skipped', B64, B64, z3.BoolSort())
+
+
+def field_list_closure(c, st):
+    """a struct's field list: every link is NULL or a valid field object with a valid type, laid out (0 <= offset),
+    whose array types have item types of known non-negative size"""
+    f = z3.BitVec('f!fl', 64)
+    nxt = F(c, st, f, 'cf_next', CF)
+    ft = F(c, st, f, 'cf_type', CF)
+    isarr = (F(c, st, ft, 'ct_flags') & CT_ARRAY) != 0
+    item = F(c, st, ft, 'ct_itemdescr')
+    off = F(c, st, f, 'cf_offset', CF)
+    return z3.ForAll([f], z3.Implies(is_cfield_obj(f), z3.And(
+        c.valid(f, 48), c.valid(ft, 104), z3.Or(nxt == 0, is_cfield_obj(nxt)),
+        z3.Implies(isarr, z3.And(c.valid(item, 104), F(c, st, item, 'ct_size') >= 0, F(c, st, item, 'ct_size') < BOUND)),
+        off >= 0, off < BOUND)), patterns=[is_cfield_obj(f)])
+
+
+def ignored(c, st, f):
+    return (F(c, st, f, 'cf_flags', CF) & BF_IGNORE_IN_CTOR) != 0
+
+
+def skipped_def(c, st):
+    """ghost relation skipped(a, b): b is reached from a by stepping over fields marked ignore-in-constructor only
+    (reflexive; extended by one marked field) -- given as the two closure rules the loop needs"""
+    a, b = z3.BitVecs('a!sk b!sk', 64)
+    return z3.And(z3.ForAll([a], skipped(a, a), patterns=[skipped(a, a)]),
+                  z3.ForAll([a, b], z3.Implies(z3.And(skipped(a, b), b != 0, ignored(c, st, b)),
+                                               skipped(a, F(c, st, b, 'cf_next', CF))), patterns=[skipped(a, b)]))
+
+
+def _none_facts(c, st):
+    return z3.And(z3.Not(is_long(c, st, none(c))), c.valid(none(c), 24),
+                  *[z3.Not(has_flag(c, st, none(c), fl)) for fl in (TPFLAGS_LIST, TPFLAGS_TUPLE, TPFLAGS_BYTES)])
+
+
+VF = 'convert_vfield_from_object'
+R.contracts[VF].record_calls = True
+
+
+def vf_calls(st):
+    return st.gvar('tmp:calls:' + VF, B64)
+
+
+def vf_arg(st, name, sort=B64):
+    return st.gvar('tmp:arg:%s:%s' % (VF, name), sort)
+
+
+class ListLoop(Contract):
+    """convert_struct_from_object, the loop over a list/tuple initializer: ONE iteration hands the i-th initializer
+    to the first field at or after the current one that is not marked ignore-in-constructor (union members after the
+    first are marked), through convert_vfield_from_object, and moves to the field after it"""
+    name = 'convert_struct_from_object#list-loop'
+    function = 'convert_struct_from_object'
+    loop_ordinal = 0
+    keep_fields = True
+
+    def _skip_inv(self, c, st):
+        cur = c.local(st, 'cf')
+        return [('the scan stays on the field list', z3.Or(cur == 0, is_cfield_obj(cur))),
+                ('only fields marked ignore-in-constructor were stepped over', skipped(c['cf'], cur))]
+
+    loops = property(lambda self: {1: LoopSpec(invariant=self._skip_inv, readonly=True)})
+
+    def pre(self, c):
+        st = c.old
+        i, n, items, cf = c['i'], c['n'], c['items'], c['cf']
+        item = c.raw(st, items + i * 8, 8)
+        ov = c['optvarsize']
+        return [('0 <= i < n', z3.And(i >= 0, i < n, n < BV(1 << 40, 64))), ('items-valid', c.valid(items + i * 8, 8)),
+                ('cf is NULL or a field object', z3.Or(cf == 0, is_cfield_obj(cf))),
+                ('the field list is well-formed', field_list_closure(c, st)),
+                ('definition of the ghost relation skipped', skipped_def(c, st)),
+                ('ct-valid', c.valid(c['ct'], 104)), ('item-valid', c.valid(item, 24)),
+                ('optvarsize NULL or valid', z3.Or(ov == 0, c.valid(ov, 8))),
+                ('real pass: data points to the object being initialised',
+                 z3.Implies(ov == 0, z3.And(c.valid(c['data'], obj_extent(c['data'])), obj_extent(c['data']) < BOUND))),
+                ('a type is a subclass of at most one builtin kind', kind_flags_exclusive(c, st, item)),
+                ('container sizes are sane', z3.And(seq_size(c, st, item) >= 0, seq_size(c, st, item) < BV(1 << 60, 64))),
+                ('None is not an int, list, tuple or bytes', _none_facts(c, st)),
+                ('scope: a flexible array member (items not zero-sized) gets a list, tuple, bytes or a length; no nested '
+                 'struct that itself ends in a flexible array', self.fields_in_scope(c, st, item)),
+                ('no-pending-exception', st.err == 0)]
+
+    def fields_in_scope(self, c, st, item):
+        f = z3.BitVec('f!sc', 64)
+        p = field_parts(c, st, f)
+        vararr = z3.And((p['flags'] & CT_ARRAY) != 0, p['size'] < 0)
+        kinds = z3.Or(has_flag(c, st, item, TPFLAGS_LIST), has_flag(c, st, item, TPFLAGS_TUPLE),
+                      has_flag(c, st, item, TPFLAGS_BYTES), is_long(c, st, item))
+        return z3.ForAll([f], z3.Implies(is_cfield_obj(f), z3.And(
+            z3.Implies(vararr, z3.And(kinds, F(c, st, p['item'], 'ct_size') > 0)),
+            z3.Or(vararr, (p['mut'] & CT_WITH_VAR_ARRAY) == 0))),
+            patterns=[is_cfield_obj(f)])
+
+    def witness(self, c):
+        return {'i': c['i'], 'n': c['n']}
+
+    def post(self, c):
+        st0, st1 = c.old, c.new
+        t = vf_arg(st1, 'cf')
+        item = c.raw(st0, c['items'] + c['i'] * 8, 8)
+        ov = c['optvarsize']
+        return [('exactly one field conversion was requested', vf_calls(st1) == vf_calls(st0) + 1),
+                ('its target is the first field at or after the current one not marked ignore-in-constructor',
+                 z3.And(t != 0, skipped(c['cf'], t), z3.Not(ignored(c, st0, t)))),
+                ('it receives the i-th initializer, the same object address and the same pass',
+                 z3.And(vf_arg(st1, 'value') == item, vf_arg(st1, 'data') == c['data'], vf_arg(st1, 'optvarsize') == ov)),
+                ('the scan continues after that field', c.local(st1, 'cf') == F(c, st1, t, 'cf_next', CF)),
+                ('the loop index advances by one', c.local(st1, 'i') == c['i'] + 1),
+                ('sizing pass: the required size never shrinks (invariant of the summarised loop)',
+                 z3.Implies(ov != 0, c.raw(st1, ov, 8) >= c.raw(st0, ov, 8))),
+                ('the sizing pass converts nothing (invariant of the summarised loop)', z3.Implies(ov != 0, cfo_unchanged(c))),
+                ('optvarsize stays a valid slot', z3.Implies(ov != 0, c.valid(ov, 8)))]
+
+    def post_return(self, c):
+        st1 = c.new
+        cur = c.local(st1, 'cf')
+        return [('the loop is left early only with -1 and an exception', z3.And(c.result == BV(-1, 32), st1.err != 0)),
+                ('too many initializers (no field left) is a ValueError; otherwise the field conversion failed',
+                 z3.Or(z3.And(cur == 0, skipped(c['cf'], cur), st1.err == exc(c.ex, 'ValueError')),
+                       vf_calls(st1) == vf_calls(c.old) + 1))]
+
+
+R.add(ListLoop)
+
+
+class DictLoop(Contract):
+    """convert_struct_from_object, the loop over a dict initializer: ONE iteration takes some (key, value) pair and
+    hands the value to the field object stored under that name in the struct's field dict"""
+    name = 'convert_struct_from_object#dict-loop'
+    function = 'convert_struct_from_object'
+    loop_ordinal = 2
+    keep_fields = True
+
+    def pre(self, c):
+        st = c.old
+        ov = c['optvarsize']
+        stuff = F(c, st, c['ct'], 'ct_stuff')
+        k = z3.BitVec('k!dl', 64)
+        return [('ct-valid', c.valid(c['ct'], 104)), ('init-valid', c.valid(c['init'], 24)),
+                ('the field dict holds field objects only', z3.ForAll([k], z3.Or(dict_lookup(stuff, k) == 0,
+                                                                              is_cfield_obj(dict_lookup(stuff, k))))),
+                ('the field list is well-formed', field_list_closure(c, st)),
+                ('optvarsize NULL or valid', z3.Or(ov == 0, c.valid(ov, 8))),
+                ('real pass: data points to the object being initialised',
+                 z3.Implies(ov == 0, z3.And(c.valid(c['data'], obj_extent(c['data'])), obj_extent(c['data']) < BOUND))),
+                ('None is not an int, list, tuple or bytes', _none_facts(c, st)),
+                ('scope: values are ints, lists, tuples or bytes of sane size; flexible arrays have items that are not '
+                 'zero-sized; no nested struct that itself ends in a flexible array', self.fields_in_scope(c, st)),
+                ('no-pending-exception', st.err == 0)]
+
+    def fields_in_scope(self, c, st):
+        f = z3.BitVec('f!sc', 64)
+        p = field_parts(c, st, f)
+        vararr = z3.And((p['flags'] & CT_ARRAY) != 0, p['size'] < 0)
+        v, k = z3.BitVecs('v!sc k!sc', 64)
+        kinds = z3.Or(has_flag(c, st, v, TPFLAGS_LIST), has_flag(c, st, v, TPFLAGS_TUPLE),
+                      has_flag(c, st, v, TPFLAGS_BYTES), is_long(c, st, v))
+        return z3.And(
+            z3.ForAll([f], z3.Implies(is_cfield_obj(f), z3.And(
+                z3.Implies(vararr, F(c, st, p['item'], 'ct_size') > 0),
+                z3.Or(vararr, (p['mut'] & CT_WITH_VAR_ARRAY) == 0))), patterns=[is_cfield_obj(f)]),
+            z3.ForAll([k, v], z3.Implies(dict_entry(c['init'], k, v),
+                                         z3.And(kinds, kind_flags_exclusive(c, st, v), seq_size(c, st, v) >= 0,
+                                                seq_size(c, st, v) < BV(1 << 60, 64))),
+                      patterns=[dict_entry(c['init'], k, v)]))
+
+    def post(self, c):
+        st0, st1 = c.old, c.new
+        ov = c['optvarsize']
+        stuff = F(c, st0, c['ct'], 'ct_stuff')
+        key, val = c.local(st1, 'd_key'), c.local(st1, 'd_value')
+        return [('exactly one field conversion was requested', vf_calls(st1) == vf_calls(st0) + 1),
+                ('its target is the field object stored under the key, it receives the value of that key',
+                 z3.And(vf_arg(st1, 'cf') == dict_lookup(stuff, key), vf_arg(st1, 'cf') != 0,
+                        vf_arg(st1, 'value') == val, vf_arg(st1, 'data') == c['data'], vf_arg(st1, 'optvarsize') == ov)),
+                ('sizing pass: the required size never shrinks (invariant of the summarised loop)',
+                 z3.Implies(ov != 0, c.raw(st1, ov, 8) >= c.raw(st0, ov, 8))),
+                ('the sizing pass converts nothing (invariant of the summarised loop)', z3.Implies(ov != 0, cfo_unchanged(c))),
+                ('optvarsize stays a valid slot', z3.Implies(ov != 0, c.valid(ov, 8)))]
+
+    def post_return(self, c):
+        st1 = c.new
+        stuff = F(c, c.old, c['ct'], 'ct_stuff')
+        key = c.local(st1, 'd_key')
+        return [('the loop is left early only with -1 and an exception', z3.And(c.result == BV(-1, 32), st1.err != 0)),
+                ('an unknown field name is a KeyError; otherwise the field conversion failed',
+                 z3.Or(z3.And(dict_lookup(stuff, key) == 0, st1.err == exc(c.ex, 'KeyError')),
+                       vf_calls(st1) == vf_calls(c.old) + 1))]
+
+
+R.add(DictLoop)
+
+
+# ---------------------------------------------------------------------------------------------------------------
+# ffi.new
+
+def newp_parts(c, st):
+    ct = c['ct']
+    fl = F(c, st, ct, 'ct_flags')
+    item = F(c, st, ct, 'ct_itemdescr')
+    ifl = F(c, st, item, 'ct_flags')
+    return {'ct': ct, 'fl': fl, 'item': item, 'ifl': ifl, 'isize': F(c, st, item, 'ct_size'),
+            'size': F(c, st, ct, 'ct_size'), 'imut': F(c, st, item, 'ct_flags_mut'),
+            'isptr': (fl & CT_POINTER) != 0, 'isarr': (fl & CT_ARRAY) != 0, 'owned': (fl & CT_IS_PTR_TO_OWNED) != 0,
+            'aggr': (ifl & (CT_STRUCT | CT_UNION)) != 0, 'ischar': (ifl & CT_PRIMITIVE_CHAR) != 0}
+
+
+all_in_scope = R.ghost('initializers_in_scope', B64, B64, z3.BoolSort())
+#   ghost predicate (struct type, initializer): every (field, value) pair that convert_struct_from_object's loops visit
+#   satisfies the precondition of the loop-body contracts above (values are lists/tuples/bytes/ints, flexible arrays
+#   have items that are not zero-sized, no nested struct that itself ends in a flexible array)
+
+
+class direct_newp_base(Contract):
+    """ffi.new(ct, init) with the default allocator: the size of the data area, its zero-filling, and the single
+    conversion of `init` into it -- the very call that `p[0] = init` (cdata_ass_sub below) makes.  Verified as three
+    cases (pointer to a plain item, pointer to struct/union, array), one contract instance each."""
+    function = 'direct_newp'
+    case = None
+
+    def default(self, c):
+        return z3.And(F(c, c.old, c['allocator'], 'ca_alloc', 'cffi_allocator_t') == 0,
+                      F(c, c.old, c['allocator'], 'ca_dont_clear', 'cffi_allocator_t') == 0)
+
+    def pre(self, c):
+        st = c.old
+        p = newp_parts(c, st)
+        init = c['init']
+        return [('ct-valid', c.valid(p['ct'], 104)), ('allocator-valid', c.valid(c['allocator'], 24)),
+                ('pointer and array types have a valid item type', z3.Implies(z3.Or(p['isptr'], p['isarr']), c.valid(p['item'], 104))),
+                ('a ctype has one kind', z3.Not(z3.And(p['isptr'], p['isarr']))),
+                ('pointer-to-owned is exactly pointer to struct/union', p['owned'] == z3.And(p['isptr'], p['aggr'])),
+                ('init-valid', c.valid(init, 24)), ('None is not an int, list, tuple or bytes', _none_facts(c, st)),
+                ('a type is a subclass of at most one builtin kind', kind_flags_exclusive(c, st, init)),
+                ('container sizes are sane', z3.And(seq_size(c, st, init) >= 0, seq_size(c, st, init) < BV(1 << 60, 64))),
+                ('type sizes are below 2^46 (A-ALLOC)', z3.And(p['isize'] < ALLOC_MAX / 2, p['size'] < ALLOC_MAX)),
+                ('an array type of known length has size length*itemsize >= 0',
+                 z3.Implies(z3.And(p['isarr'], p['size'] >= 0), p['isize'] >= 0)),
+                ('no-pending-exception', st.err == 0)]
+
+    def n_len(self, c):
+        st0, init = c.old, c['init']
+        return z3.If(is_long(c, st0, init), z3.Extract(63, 0, int_w(init)),
+                     z3.If(has_flag(c, st0, init, TPFLAGS_BYTES), seq_size(c, st0, init) + 1, seq_size(c, st0, init)))
+
+    def in_scope(self, c):
+        st = c.old
+        p = newp_parts(c, st)
+        init = c['init']
+        kinds = z3.Or(has_flag(c, st, init, TPFLAGS_LIST), has_flag(c, st, init, TPFLAGS_TUPLE),
+                      has_flag(c, st, init, TPFLAGS_BYTES), is_long(c, st, init))
+        case = {'plain': z3.And(p['isptr'], z3.Not(p['aggr'])), 'struct': z3.And(p['isptr'], p['aggr']),
+                'array': p['isarr']}[self.case]
+        return z3.And(self.default(c), case,
+                      z3.Implies(p['aggr'], z3.And(F(c, st, p['item'], 'ct_lazy_field_list') == 0,
+                                                   all_in_scope(p['item'], init))),
+                      # an array of unknown length takes its length from a list, tuple, bytes or int
+                      z3.Implies(z3.And(p['isarr'], p['size'] < 0), z3.And(kinds, p['isize'] > 0)))
+
+    def scope(self, c):
+        p = newp_parts(c, c.old)
+        return [('default allocator; ABI-mode item type; open arrays sized by a list, tuple, bytes or int; case: ' + self.case,
+                 self.in_scope(c)),
+                ('instance of lemma mul_tdiv_overflow (Lean: lemmas/Arith.lean) for the overflow test of length*itemsize',
+                 A.mul_tdiv_overflow(self.n_len(c), p['isize']))]
+
+    def frame(self, c):
+        return Frame(all_raw=True, all_fields=True, err=True, ghost=CFO + [EVENTS])
+
+    def witness(self, c):
+        p = newp_parts(c, c.old)
+        return {'ct_flags': p['fl'], 'item_flags': p['ifl'], 'item_size': p['isize'], 'ct_size': p['size'],
+                'item_flags_mut': p['imut'], 'init_is_none': b2i(c['init'] == none(c), 8),
+                'init_len': seq_size(c, c.old, c['init']), 'init_int_sat80': int_w(c['init'])}
+
+    def post(self, c):
+        st0, st1 = c.old, c.new
+        p = newp_parts(c, st0)
+        sc = self.in_scope(c)
+        r = c.result
+        ok = r != 0
+        init = c['init']
+        data = F(c, st1, r, 'c_data', 'CDataObject')
+        var_struct = z3.And(p['isptr'], p['aggr'], (p['imut'] & CT_WITH_VAR_ARRAY) != 0)
+        open_arr = z3.And(p['isarr'], p['size'] < 0)
+        isint = is_long(c, st0, init)
+        # the value handed to the conversion: an integer length for an open array is consumed (None: nothing to copy)
+        init_eff = z3.If(z3.And(open_arr, isint), none(c), init)
+        called = g(st1, 'cfo_count') == g(st0, 'cfo_count') + 1
+        n_len = self.n_len(c)
+        datasize = c.local(st1, 'datasize')
+        small = z3.And(datasize >= 0, datasize < ALLOC_MAX)
+        plain = z3.And(z3.Not(var_struct), z3.Not(open_arr))
+        expect_plain = z3.If(p['isptr'], z3.If(p['ischar'], p['isize'] * 2, p['isize']), p['size'])
+        before = z3.If(init_eff != none(c), g(st1, 'cfo_raw_before'), st1.raw)
+        structobj = F(c, st1, r, 'structobj', 'CDataObject_own_structptr')
+        W = 130
+        wide = z3.SignExt(W - 64, n_len) * z3.SignExt(W - 64, p['isize'])
+        out = [
+            ('size of the data area: the item (twice for a char item: room for a terminator) or the array',
+             z3.Implies(z3.And(sc, ok, plain), datasize == expect_plain)),
+            ('with an initializer: exactly one conversion, of init, into the data area, as the item type (pointer) or the array type',
+             z3.Implies(z3.And(sc, ok, small, init_eff != none(c)),
+                        z3.And(called, g(st1, 'cfo_data') == data, g(st1, 'cfo_init') == init_eff,
+                               g(st1, 'cfo_ct') == z3.If(p['isptr'], p['item'], p['ct'])))),
+            ('without an initializer (or a bare length): no conversion at all',
+             z3.Implies(z3.And(sc, ok, small, init_eff == none(c)), cfo_unchanged(c))),
+            ('the data area is all zero when the conversion starts (or on return if there is none)',
+             z3.Implies(z3.And(sc, ok, small), zero_region(before, data, datasize))),
+            ('failure only with an exception', z3.Implies(z3.And(sc, z3.Not(ok)), st1.err != 0)),
+        ]
+        if self.case == 'array':
+            out += [('size of the data area of an open array: length * itemsize, and the length is stored',
+                     z3.Implies(z3.And(sc, ok, open_arr), z3.And(datasize == n_len * p['isize'],
+                                                                 F(c, st1, r, 'length', 'CDataObject_own_length') == n_len))),
+                    ('an open array whose size does not fit a Py_ssize_t: OverflowError (or the bad length was refused)',
+                     z3.Implies(z3.And(sc, open_arr, n_len > 0, z3.Or(has_flag(c, st0, init, TPFLAGS_LIST), has_flag(c, st0, init, TPFLAGS_TUPLE),
+                                                                      has_flag(c, st0, init, TPFLAGS_BYTES), fits_ssize(int_w(init))),
+                                       z3.Not(wide <= z3.BitVecVal((1 << 63) - 1, W))),
+                                z3.And(z3.Not(ok), st1.err == exc(c.ex, 'OverflowError'))))]
+        if self.case == 'struct':
+            out += [('a struct ending in a flexible array: at least the struct, and sizeof(p[0]) will report the allocated size',
+                     z3.Implies(z3.And(sc, ok, small, var_struct),
+                                z3.And(datasize >= p['isize'], F(c, st1, structobj, 'length', 'CDataObject_own_length') == datasize))),
+                    ('the returned pointer views the data of the owning struct object',
+                     z3.Implies(z3.And(sc, ok, small), data == F(c, st1, structobj, 'c_data', 'CDataObject')))]
+        return out
+
+    def post_witness(self, c):
+        return {'datasize': c.local(c.new, 'datasize'), 'dataoffset': c.local(c.new, 'dataoffset')}
+
+
+NEWP_CASES = []
+for _case in ('plain', 'struct', 'array'):
+    _K = type('direct_newp_' + _case, (direct_newp_base,), {'case': _case, 'name': 'direct_newp#' + _case})
+    R.add(_K)
+    NEWP_CASES.append('direct_newp#' + _case)
+
+
+@R.add
+class _cdata_var_byte_size(Contract):
+    name = '_cdata_var_byte_size'
+    pure = True
+
+    def pre(self, c):
+        st = c.old
+        cd = c['cd']
+        ct = F(c, st, cd, 'c_type', 'CDataObject')
+        so = F(c, st, cd, 'structobj', 'CDataObject_own_structptr')
+        return [('cd-valid', z3.And(c.valid(cd, 64), c.valid(ct, 104))),
+                ('a pointer-to-owned cdata holds a valid struct object',
+                 z3.Implies((F(c, st, ct, 'ct_flags') & CT_IS_PTR_TO_OWNED) != 0,
+                            z3.And(c.valid(so, 64), c.valid(F(c, st, so, 'c_type', 'CDataObject'), 104))))]
+
+    def post(self, c):
+        st = c.old
+        cd = c['cd']
+        t = py_type(c, st, cd)
+        own = z3.Or(t == c.ex.global_addr('CDataOwning_Type'), t == c.ex.global_addr('CDataOwningGC_Type'))
+        ct = F(c, st, cd, 'c_type', 'CDataObject')
+        so = F(c, st, cd, 'structobj', 'CDataObject_own_structptr')
+        tgt = z3.If((F(c, st, ct, 'ct_flags') & CT_IS_PTR_TO_OWNED) != 0, so, cd)
+        tct = F(c, st, tgt, 'c_type', 'CDataObject')
+        var = (F(c, st, tct, 'ct_flags_mut') & CT_WITH_VAR_ARRAY) != 0
+        return [('an owning struct cdata with a flexible array: the allocated size stored at ffi.new time',
+                 z3.Implies(z3.And(own, var), c.result == F(c, st, tgt, 'length', 'CDataObject_own_length'))),
+                ('anything else: -1', z3.Implies(z3.Not(z3.And(own, var)), c.result == BV(-1, 64)))]
+
+
+@R.add
+class direct_sizeof_cdata(Contract):
+    name = 'direct_sizeof_cdata'
+    pure = True
+
+    def pre(self, c):
+        st = c.old
+        cd = c['cd']
+        ct = F(c, st, cd, 'c_type', 'CDataObject')
+        return [('cd-valid', z3.And(c.valid(cd, 64), c.valid(ct, 104))),
+                ('a struct cdata is not a pointer-to-owned nor an array (a ctype has one kind)',
+                 z3.Implies((F(c, st, ct, 'ct_flags') & (CT_STRUCT | CT_UNION)) != 0,
+                            (F(c, st, ct, 'ct_flags') & (CT_IS_PTR_TO_OWNED | CT_ARRAY)) == 0))]
+
+    def witness(self, c):
+        st = c.old
+        cd = c['cd']
+        ct = F(c, st, cd, 'c_type', 'CDataObject')
+        return {'flags': F(c, st, ct, 'ct_flags'), 'mut': F(c, st, ct, 'ct_flags_mut'), 'size': F(c, st, ct, 'ct_size'),
+                'length': F(c, st, cd, 'length', 'CDataObject_own_length'), 'pytype': py_type(c, st, cd),
+                'owning': c.ex.global_addr('CDataOwning_Type')}
+
+    def scope(self, c):
+        ct = F(c, c.old, c['cd'], 'c_type', 'CDataObject')
+        return [('a struct or union cdata (p[0])', (F(c, c.old, ct, 'ct_flags') & (CT_STRUCT | CT_UNION)) != 0)]
+
+    def post(self, c):
+        st = c.old
+        cd = c['cd']
+        t = py_type(c, st, cd)
+        own = z3.Or(t == c.ex.global_addr('CDataOwning_Type'), t == c.ex.global_addr('CDataOwningGC_Type'))
+        ct = F(c, st, cd, 'c_type', 'CDataObject')
+        aggr = (F(c, st, ct, 'ct_flags') & (CT_STRUCT | CT_UNION)) != 0
+        var = (F(c, st, ct, 'ct_flags_mut') & CT_WITH_VAR_ARRAY) != 0
+        length = F(c, st, cd, 'length', 'CDataObject_own_length')
+        return [('sizeof(p[0]) of an owning struct with a flexible array is the size allocated by ffi.new',
+                 z3.Implies(z3.And(aggr, own, var, length >= 0), c.result == length)),
+                ('sizeof of any other struct cdata is the size of its type',
+                 z3.Implies(z3.And(aggr, z3.Not(z3.And(own, var))), c.result == F(c, st, ct, 'ct_size')))]
+
+
+class cdata_ass_sub_accepted(Contract):
+    """x[i] = v with an accepted integer index: exactly the conversion convert_from_object(address of item i, item
+    type, v) -- for p = ffi.new('T *') and i = 0 the same call, on the same zero bytes, that ffi.new('T *', v) makes"""
+    name = 'cdata_ass_sub#accepted'
+    function = 'cdata_ass_sub'
+
+    def pre(self, c):
+        return R0.contracts['cdata_ass_sub'].pre(c)
+
+    def scope(self, c):
+        return R0.contracts['cdata_ass_sub'].scope(c) + [('a value is given (not `del x[i]`)', c['v'] != 0)]
+
+    def frame(self, c):
+        return Frame(all_raw=True, err=True, ghost=CFO)
+
+    def post(self, c):
+        from .index import arr_len, item_size, is_owning, CT_FLAGS
+        from .cast import cdata_fields
+        from .base import W
+        st = c.old
+        cd = c['cd']
+        ct, data = cdata_fields(c, st, cd)
+        fl = CT_FLAGS(c, st, ct)
+        isarr, isptr = flag(fl, CT_ARRAY), flag(fl, CT_POINTER)
+        w = int_w(c['key'])
+        n, z = arr_len(c, st, cd), item_size(c, st, cd)
+        in_arr = z3.And(w >= wv(0), w < z3.SignExt(W - 64, n))
+        own = is_owning(c, st, cd)
+        accepted = z3.If(isarr, in_arr, z3.If(isptr, z3.If(own, w == wv(0), z3.And(fits_ssize(w), data != 0)), z3.BoolVal(False)))
+        item = F(c, st, ct, 'ct_itemdescr')
+        return [('accepted index: exactly one conversion, of v, into item i, as the item type',
+                 z3.Implies(accepted, z3.And(g(c.new, 'cfo_count') == g(c.old, 'cfo_count') + 1,
+                                             g(c.new, 'cfo_data') == data + z3.Extract(63, 0, w) * z,
+                                             g(c.new, 'cfo_ct') == item, g(c.new, 'cfo_init') == c['v'],
+                                             g(c.new, 'cfo_raw_before') == c.old.raw))),
+                ('rejected index: no conversion', z3.Implies(z3.Not(accepted), cfo_unchanged(c)))]
+
+
+R.add(cdata_ass_sub_accepted)
+C20_FUNCS = ['allocate_owning_object', 'allocate_with_allocator', 'get_new_array_length', 'add_varsize_length',
+             'convert_vfield_from_object', 'convert_struct_from_object', 'convert_struct_from_object#list-loop',
+             'convert_struct_from_object#dict-loop'] + NEWP_CASES + ['_cdata_var_byte_size', 'direct_sizeof_cdata',
+                                                                     'cdata_ass_sub#accepted']
